@@ -151,6 +151,7 @@ class Network:
         self.ordinals = {}
         self.taps = []           # fn(wire_id, t, src, dst, data, fate)
         self.rx_taps = []        # fn(t, src, dst, nbytes, origin) at delivery to an endpoint
+        self.interceptors = []   # fn(src, dst, sname, dname, ordinal, data) -> None | [(data, extra_delay, meta)]
         self.nwire = 0
         self.delivered = 0
         self.names = {}          # addr -> short endpoint name used in link keys
@@ -174,6 +175,18 @@ class Network:
         lk = (s, d)
         o = self.ordinals.get(lk, 0)
         self.ordinals[lk] = o + 1
+        for ic in self.interceptors:
+            # an on-path attacker: may swallow the datagram and put anything else on the wire instead
+            r = ic(src, dst, s, d, o, data)
+            if r is not None:
+                self.k.rec("intercepted", s, d, o, len(r))
+                for tap in self.taps:
+                    tap(self.nwire, self.k.now, src, dst, data, [])
+                self.nwire += 1
+                for d2, delay2, meta in r:
+                    self.k.after(self.decider.base_delay("%s>%s" % (s, d), o) + delay2, None, self._deliver, src, dst, d2,
+                                 None, None, "attacker", meta, tag="rx:" + d)
+                return
         fate = self.decider.fate(self.k.now, s, d, o, len(data))
         wid = self.nwire
         self.nwire += 1
